@@ -23,6 +23,14 @@ def main(argv=None):
     seed = seed % (2 ** 31)
     try:
         from . import env, codec
+        target = args.id.upper() if args.cmd == "check" else None
+        if args.cmd == "replay":
+            with open(args.path) as f:
+                target = json.load(f).get("property")
+        if target == "C20":
+            # the fake libusb backend must be in sys.modules before adb_shell is imported (this check's own process)
+            from . import fakeusb1
+            fakeusb1.install()
         env.lib()
         if args.cmd == "check":
             mod = importlib.import_module("advf.checks.%s" % args.id.lower())
